@@ -668,3 +668,84 @@ def filesystem_query_contract():
                  assumptions=['slice contract: the directory walk and what the per-directory searches return are not modelled (bounded part); callee contracts FilterSet(filters) / FilterSet.add (proved)'])
     c.exact_opaque_iteration = True
     return c
+
+
+# ------------------------------------------------------------------ MemorySource.all_versions: every version held under the id that passes the source's and the handed-down filters
+IDSET = z3.Const('stored_under(stix_id)', E.SetS); IS_FAMILY = z3.Bool('isinstance(mapped_value, _ObjectFamily)'); HAS_ID = z3.Bool('stix_id in self._data')
+ONE = z3.String('the single object held under stix_id')
+
+
+def memory_all_versions_contract():
+    base = memory_query_contract()
+
+    def m_data_get(x, recv, args, e, p, site):
+        if len(args) != 1 or ast.unparse(e.args[0]) != 'stix_id': raise Unsupported(site + ' _data.get of something else than stix_id')
+        yield p, Val('mapped', x={})
+
+    def attr_data(x, o, p, site): yield p, Val('datamap', x={})
+
+    def h_is_family(x, v, p, site):
+        if v.sort != 'mapped': raise Unsupported(site + ' isinstance(_ObjectFamily) of ' + v.sort)
+        yield p, Bool(IS_FAMILY)
+
+    def hook_family_versions(x, e, p): yield p, Val('objset', IDSET)          # representation invariant of _data (requires): a family holds exactly the versions stored under its id
+
+    def hook_single(x, e, p):
+        u = z3.FreshConst(E.S, 'u'); yield p, Val('objset', z3.Lambda([u], u == ONE))
+
+    def hook_filters(x, e, p):
+        u = z3.FreshConst(E.S, 'u')
+        yield p, Val('set', z3.Lambda([u], z3.Or(z3.And(z3.Not(DOWN_NONE), DOWN_F[u]), SELF_F[u])), x={'fresh': True})
+
+    def h_chain(x, e, p, site):
+        # itertools.chain over collections of filters: the union of their views
+        for p1, vs in x.ev_seq(list(e.args), p):
+            if isinstance(vs, Exc): yield p1, vs; continue
+            u = z3.FreshConst(E.S, 'u'); parts = []
+            for v in vs:
+                if v.sort == 'set': parts.append(v.t[u])
+                elif v.sort == 'opt:set': parts.append(z3.And(z3.Not(v.t[0]), v.t[1].t[u]))
+                elif v.sort == 'litlist' and not v.x: pass
+                else: raise Unsupported(site + ' chain over ' + v.sort)
+            yield p1, Val('set', z3.Lambda([u], z3.Or(*parts) if parts else z3.BoolVal(False)), x={'fresh': True})
+
+    def h_list(x, e, p, site):
+        for p1, vs in x.ev_seq(list(e.args), p):
+            yield p1, (vs if isinstance(vs, Exc) else vs[0])
+
+    def h_acf(x, e, p, site):
+        for p1, vs in x.ev_seq(list(e.args), p):
+            if isinstance(vs, Exc): yield p1, vs; continue
+            objs, fl = vs
+            if objs.sort != 'objset' or fl.sort != 'set': raise Unsupported(site + f' apply_common_filters({objs.sort}, {fl.sort})')
+            u = z3.FreshConst(E.S, 'u')
+            x.oblige('call(apply_common_filters): the filters applied are exactly the source\'s own and the ones handed down', p1.pc,
+                     z3.ForAll([u], fl.t[u] == z3.Or(SELF_F[u], z3.And(z3.Not(DOWN_NONE), DOWN_F[u]))), p1.exact, 'call-requires')
+            yield p1, Val('objset', z3.Lambda([u], z3.And(objs.t[u], SATALL(fl.t, u))))
+
+    def m_extend(x, recv, args, e, p, site):
+        if args[0].sort != 'objset' or not (recv.sort == 'litlist' and not recv.x): raise Unsupported(site + ' extend shape')
+        q = p.fork(); q.env[e.func.value.id] = args[0]
+        yield q, NONE
+
+    def inv_repr(a):
+        u = z3.String('u!rp')
+        return z3.And(z3.Implies(z3.Not(HAS_ID), z3.ForAll([u], z3.Not(IDSET[u]))), z3.Implies(z3.And(HAS_ID, z3.Not(IS_FAMILY)), z3.ForAll([u], IDSET[u] == (u == ONE))))
+
+    def ens(a, r):
+        u = z3.String('u!av'); f = z3.FreshConst(E.S, 'f')
+        view = E.EMPTY if (r.sort == 'litlist' and not r.x) else (r.t if r.sort == 'objset' else None)
+        if view is None: return z3.BoolVal(False)
+        union = z3.Lambda([f], z3.Or(SELF_F[f], z3.And(z3.Not(DOWN_NONE), DOWN_F[f])))
+        return z3.ForAll([u], view[u] == z3.And(IDSET[u], SATALL(union, u)))
+    FILTERS = 'list(itertools.chain(_composite_filters or [], self.filters))'
+    return Contract('stix2/datastore/memory.py::MemorySource.all_versions', props=['C11', 'C12'],
+                    params={'self': Val('memsource', x={}), 'stix_id': 'str', '_composite_filters': base.params['_composite_filters']},
+                    requires=[('representation invariant of the memory store (kept by _add / _ObjectFamily.add, proved): under an id there is nothing, one unversioned object, or a family holding exactly the versions stored under it', inv_repr)],
+                    ensures=[('every version held under the id for which the source\'s own and the handed-down filters all hold, and nothing else', ens)],
+                    raises={}, handlers={'apply_common_filters': h_acf, 'isinstance:_ObjectFamily': h_is_family, 'itertools.chain': h_chain, 'list': h_list},
+                    expr_hooks={'mapped_value.all_versions.values()': hook_family_versions, '[mapped_value]': hook_single},
+                    registry_ext={'attrs': {('memsource', 'filters'): base.registry_ext['attrs'][('memsource', 'filters')], ('memsource', '_data'): attr_data},
+                                  'methods': {('.get', 'datamap'): m_data_get, ('.extend', 'litlist'): m_extend}},
+                    truthy_handlers={'mapped': lambda x, v: HAS_ID},
+                    assumptions=['callee contract apply_common_filters (proved); the representation invariant of _data is a precondition here (its preservation is the contract of _ObjectFamily.add / _add in C11)'])
